@@ -12,6 +12,7 @@ from ..core import Result, Violation
 from ..world import World, Peer
 
 from aiocoap import Message, GET, NON, CON, error, resource
+from aiocoap.numbers import constants
 
 PROP = "C10"
 LEVEL = "model_checking"
@@ -492,16 +493,19 @@ def job(arg):
 def outgoing(res):
     """No CON is ever sent to a multicast destination."""
     for dst in ("ff02::fd", "::ffff:224.0.1.187", "ff05::fd"):
-        for mt in (None, NON, CON):
+        for mt, tname in itertools.product((None, NON, CON), ("default", "Reliable-class", "Reliable-instance", "Unreliable-class")):
             w = World()
             try:
                 node = w.add_context("node", *NODE)
-                m = Message(code=GET, uri_path=["x"], _mtype=mt)
+                # the reliability preference of the transport tuning must not override the multicast rule
+                tt = {"default": None, "Reliable-class": constants.Reliable, "Reliable-instance": constants.Reliable(),
+                      "Unreliable-class": constants.Unreliable}[tname]
+                m = Message(code=GET, uri_path=["x"], _mtype=mt, transport_tuning=tt)
                 m.remote = node.remote((dst, 5683))
                 r = node.ctx.request(m, handle_blockwise=False)
                 w.loop.settle()
                 w.loop.advance_to(5.0)
-                case = {"outgoing": [dst, None if mt is None else int(mt)]}
+                case = {"outgoing": [dst, None if mt is None else int(mt), tname]}
                 res.evaluations += 1
                 res.traces += 1
                 cons = [d for d in w.sent if (d.data[0] >> 4) & 3 == rc.CON]
@@ -518,8 +522,8 @@ def outgoing(res):
                         res.violate(Violation("multicast-request-type", "one NON datagram", [repr(d) for d in w.sent],
                                               "messagemanager.py:send_message", case, key="non"))
                 res.outcomes.add(core.digest((dst, mt, len(w.sent))))
-                res.signatures.add(core.digest(("out", dst, mt)))
-                res.states.add(core.digest(("out", dst, mt, len(w.sent))))
+                res.signatures.add(core.digest(("out", dst, mt, tname)))
+                res.states.add(core.digest(("out", dst, mt, tname, len(w.sent))))
                 res.transitions += 1
             finally:
                 w.dispose()
